@@ -15,11 +15,22 @@ from . import sigs, oracle
 from .sigs import PO, PK, VA, KO, VK
 from .sigutil import bparams, show, show_params, src_as_sets, sources_view, ident
 
-ROUTES = ['global', 'closure', 'attr', 'selfmethod', 'param_partial', 'inner_partial', 'wraps']
+ROUTES = ['global', 'closure', 'attr', 'selfmethod', 'param_partial', 'inner_partial', 'wraps',
+          'default_param']
 CONTEXTS = ['expr', 'assign', 'return', 'if', 'ifelse', 'try', 'tryfinally', 'with', 'for', 'while',
             'listcomp', 'genexp', 'dictcomp', 'nested', 'lambda', 'argof', 'starof', 'dstarof', 'ternary',
-            'nested_decorated', 'fstring', 'await_free_walrus']
-NESTED_CONTEXTS = ('nested', 'lambda', 'nested_decorated')
+            'nested_decorated', 'fstring', 'await_free_walrus',
+            'nested_argof', 'lambda_argof', 'nested_kwof', 'nested_starof', 'nested_twice', 'lambda_in_nested',
+            'nested_receiver']
+# How many times the visitor defers a call before processing it.  Deferred calls are processed after the
+# top-level ones, in order of (deferral depth, source order): exchanging contexts of different depth reorders
+# the operands of the final merge, which may legitimately change names of positional-only parameters and the
+# order of provenance lists (C06 fixes the set of merged calls, not the order: expected_for tries every
+# order).  The metamorphic variants therefore stay within one depth class.
+DEFER_DEPTH = {'nested': 1, 'lambda': 1, 'nested_decorated': 1, 'nested_twice': 1, 'nested_argof': 2,
+               'lambda_argof': 2, 'nested_kwof': 2, 'nested_starof': 2, 'lambda_in_nested': 3, 'nested_receiver': 3}
+NESTED_CONTEXTS = ('nested', 'lambda', 'nested_decorated', 'nested_argof', 'lambda_argof', 'nested_kwof',
+                   'nested_starof', 'nested_twice', 'lambda_in_nested', 'nested_receiver')
 
 # --- taints: (label, template, class)   class: 'definite' | 'ambiguous' | 'nonname'
 TAINTS_KW = [
@@ -108,7 +119,7 @@ def gen_program(case_seed, force=None):
             po = po + (('kwargs', VK, None, None),)
     ova, ovk = sigs.star_name(po, VA), sigs.star_name(po, VK)
     ncalls = force.get('ncalls') or rnd.choice([1, 1, 1, 2, 2, 3])
-    if route in ('param_partial', 'inner_partial', 'wraps'):
+    if route in ('param_partial', 'inner_partial', 'wraps', 'default_param'):
         ncalls = 1
     calls = []
     for ci in range(ncalls):
@@ -213,7 +224,7 @@ def variant(meta, rnd):
     m = copy.deepcopy(meta)
     n = len(m['calls'])
     for ci, c in enumerate(m['calls']):
-        pool = [x for x in CONTEXTS if (x in NESTED_CONTEXTS) == c['nested']]
+        pool = [x for x in CONTEXTS if DEFER_DEPTH.get(x, 0) == DEFER_DEPTH.get(c['ctx'], 0)]
         if ci != n - 1:
             pool = [x for x in pool if x != 'return']
         c['ctx'] = rnd.choice(pool)
@@ -240,6 +251,8 @@ def callee_ref(route, ci):
         return 'callee%d' % ci
     if route == 'wraps':
         return 'fn'
+    if route == 'default_param':
+        return 'func'
     raise KeyError(route)
 
 
@@ -288,6 +301,21 @@ def wrap_context(ctx, call):
         return ['f"{%s}"' % call]
     if ctx == 'await_free_walrus':
         return ['(res2_ := %s)' % call]
+    # a call in a nested scope that is itself a sub-expression of another call there
+    if ctx == 'nested_argof':
+        return ['def _inner3():', '    return sink(%s)' % call, '_inner3()']
+    if ctx == 'lambda_argof':
+        return ['(lambda: sink(%s))()' % call]
+    if ctx == 'nested_kwof':
+        return ['def _inner4():', '    return sink(r_=%s)' % call, '_inner4()']
+    if ctx == 'nested_starof':
+        return ['def _inner5():', '    return sink(*[%s])' % call, '_inner5()']
+    if ctx == 'nested_twice':
+        return ['def _inner6():', '    def _inner7():', '        return %s' % call, '    return _inner7()', '_inner6()']
+    if ctx == 'lambda_in_nested':
+        return ['def _inner8():', '    return (lambda: sink(0, %s))()' % call, '_inner8()']
+    if ctx == 'nested_receiver':
+        return ['def _inner9():', '    return str(%s).strip()' % call, '_inner9()']
     raise KeyError(ctx)
 
 
@@ -321,6 +349,15 @@ def assemble(route, po, calls, body, decorate=False):
     elif route == 'param_partial':
         fo = 'func' + (', ' + ostr if ostr else '')
         src += defs + 'def outer(%s):\n%s\ntarget = functools.partial(outer, callee0)\nraw_outer = outer\n' % (fo, ind(body))
+        src += 'callee_objs = [callee0]\n'
+    elif route == 'default_param':
+        # the callee is only the DEFAULT of a keyword-only parameter of a method retrieved bound: a caller
+        # may pass another one, so nothing can be known about it (the statement: callee cannot be resolved)
+        lst = list(po)
+        at = next((k for k, p in enumerate(lst) if p[1] == VK), len(lst))
+        lst.insert(at, ('func', KO, 'callee0', None))
+        fo = sigs.render(tuple(lst))
+        src += defs + 'class C(object):\n    def outer(self, %s):\n%s\nobj = C()\ntarget = obj.outer\nraw_outer = C.outer\n' % (fo, ind(body, 2))
         src += 'callee_objs = [callee0]\n'
     elif route == 'wraps':
         src += defs + 'def deco(fn):\n    @functools.wraps(fn)\n    def outer(%s):\n%s\n    return outer\n' % (ostr, ind(body, 2))
@@ -422,6 +459,8 @@ def expected_for(meta, g, osig, combo):
     for c, ((use_va, hide_a), (use_kw, hide_k)), callee in zip(meta['calls'], combo, g['callee_objs']):
         if not (use_va or use_kw):
             continue
+        if route == 'default_param':
+            return [('callee-is-only-a-default', 'plain')]
         try:
             isig = sigtools.signature(callee)
         except Exception:
@@ -470,7 +509,10 @@ def sig_key(s, by_name=False):
     if by_name:
         src = {k: sorted(fname(f) for f in v) for k, v in s.sources.items() if k != '+depths'}
         dep = sorted((fname(f), d) for f, d in s.sources.get('+depths', {}).items())
-        return (str(s), repr(sorted(src.items())), repr(dep))
+        # (function objects used as default values have no stable repr across two compilations)
+        text = tuple((q.name, str(q.kind), fname(q.default) if callable(q.default) else repr(q.default),
+                      repr(q.annotation)) for q in s.parameters.values())
+        return (text, repr(sorted(src.items())), repr(dep))
     names, depths = src_as_sets(s)
     return (tuple(bparams(s)), tuple(repr(p.default) for p in s.parameters.values()),
             repr(sorted((k, sorted(map(repr, v))) for k, v in names.items())), repr(sorted(map(repr, depths.items()))))
@@ -597,7 +639,7 @@ def check_program(ctx, case_seed, want=('C05', 'C06', 'C07'), force=None, varian
 
     # ---------------- C05: taint clause + soundness by execution
     if 'C05' in want:
-        own = {p[0] for p in meta['po']} | ({'func'} if meta['route'] == 'param_partial' else set())
+        own = {p[0] for p in meta['po']} | ({'func'} if meta['route'] in ('param_partial', 'default_param') else set())
         for kind, star_name, kinds in (('va', meta['ova'], (PO, PK)), ('kw', meta['ovk'], (PK, KO))):
             if not star_name:
                 continue
@@ -662,6 +704,8 @@ def execute_soundness(ctx, meta, g, S, w, rp):
     ins = [ob] + [sigs.shape_key(c['pi']) for c in meta['calls']]
     if meta['route'] == 'param_partial':
         ins[0] = (('func', PK, None, None),) + tuple(ob)
+    if meta['route'] == 'default_param':
+        ins[0] = tuple(ob) + (('func', KO, '1', None),)
     sp = oracle.space_for(ins + [res])
     # names the wrapper passes itself -- by keyword, or among its n leading
     # positionals: no signature can say '**kwargs except x' (C03: "call shapes
